@@ -59,7 +59,33 @@ pub fn corrupt(w: &mut World, a: PubAnswer) -> PubAnswer {
                     }
                     3 => {
                         use tx3_tir::model::v1beta0::Expression as E;
-                        let d = match w.tape.draw(7) {
+                        let d = match w.tape.draw(10) {
+                            7 | 8 => {
+                                // a datum that is itself an open expression: the datum of another input
+                                // whose query this very UTxO satisfies (splicing it into the template
+                                // re-creates the query it came from)
+                                use tx3_tir::model::v1beta0 as tir;
+                                let q = tir::InputQuery {
+                                    address: E::Address(cand.1.address.clone()),
+                                    min_amount: E::None,
+                                    r#ref: E::None,
+                                    many: false,
+                                    collateral: false,
+                                };
+                                let name = if w.tape.chance(1, 2) { "source".to_string() } else { "in0".to_string() };
+                                E::EvalCoerce(Box::new(tir::Coerce::IntoDatum(E::EvalParam(Box::new(tir::Param::ExpectInput(name, q))))))
+                            }
+                            9 => {
+                                // any expression a (hostile or buggy) index may hand back
+                                let mut g = crate::gen_tir::TirGen {
+                                    t: &mut w.tape,
+                                    params: vec![],
+                                    queries: Default::default(),
+                                    inputs: vec![],
+                                    closed: false,
+                                };
+                                g.expr(2)
+                            }
                             0 => E::Number(i128::MAX),
                             1 => E::Number(i128::MIN),
                             2 => E::Bytes(w.tape.bytes(70)),
